@@ -24,8 +24,9 @@ def main():
     chk = Check("C12", "other")
     # deductive part: the state-layout loop of get_jacobian_func satisfies the same contract as to_func's (same state ordering)
     chk.run_contracts("contracts.c01", names=["ComputeGraph.get_jacobian_func@state-layout"], fallback={"*": lambda: []})
-    driver.run_family(
-        chk, "jacobian-vs-central-differences", families(chk.tier, chk.seed), cases.case_fn, site="C12/jacobian",
+    _cases = families(chk.tier, chk.seed)
+    _results = driver.run_family(
+        chk, "jacobian-vs-central-differences", _cases, cases.case_fn, site="C12/jacobian",
         rule="scalar (vectorize=False) models: linear networks, algebraic chains and diamonds, fan-in, sigmoid / sin / cos / tanh / "
              "exp / absv non-linearities, products and quotients, two-state operators, a state with a state-independent right-hand "
              "side that is not last, delayed models with the delayed variable first / second, two delays on two variables, one "
@@ -36,6 +37,8 @@ def main():
     # auto-07p DFDU / DFDP blocks: the same identity with respect to state and parameters (text-level, see checks/c18_text.py)
     from checks import c18_text
     c18_text.run(chk, site="C12/auto-jacobian", sizes=(3, 12))
+    driver.run_sequences(chk, "jacobian-vs-central-differences-in-sequence", _cases, _results, cases.case_fn, site="C12/jacobian",
+                         limit=20 if chk.tier == "quick" else 120, seed=chk.seed)
     rc = chk.finish(
         explanation="Deductive (small core): the state-layout loop of get_jacobian_func satisfies the SAME contract as the one in "
                     "to_func (checked under C01); the contract determines the layout uniquely, hence the same state ordering for any "
